@@ -873,6 +873,7 @@ func TestVerifTrace(t *testing.T) {
 			root, _ = filepath.EvalSymlinks(root)
 			r := &vRunner{sb: &vSandbox{root: root}, w: w}
 			r.run(c)
+			vLockAll(root, false) // (a case may have made its files immutable)
 			os.RemoveAll(root)
 		}
 		if err == io.EOF {
